@@ -28,7 +28,7 @@ open RqModel.Util RqModel.SnapFS
 
 abbrev DB := List Nat
 
-def alg : DbAlg DB := ⟨fun d w => if d.getLast? = some w then d else d ++ [w]⟩
+def alg : DbAlg DB := ⟨fun d w => if w = 0 ∨ d.getLast? = some w then d else d ++ [w]⟩
 
 structure DState where
   s : FS DB := {}
@@ -137,9 +137,12 @@ def showDir (n : Nat) (d : Dir DB) : String :=
     | some m => s!"{m.id},{m.index},{m.term}"
     | none => "-"
   let dw := match d.dbWal with
-    | some w => toString w
+    | some _ => "y"
     | none => "-"
-  s!"{n}:{if d.tmp then 1 else 0}:{m}:{optNatsStr d.db}:{optNatsStr d.crc}:{dw}:{natsStr d.wals}"
+  let crc := match d.crc with
+    | none => "-"
+    | some c => if d.db == some c then "ok" else "stale"
+  s!"{n}:{if d.tmp then 1 else 0}:{m}:{optNatsStr d.db}:{crc}:{dw}:{natsStr d.wals}"
 
 def sortNats (ns : List Nat) : List Nat := ns.mergeSort (fun a b => a ≤ b)
 
